@@ -41,6 +41,9 @@ pub struct Case {
     /// an older, longer file already sits at the destination (download: in the client's receive directory; upload: on an --overwrite server)
     #[serde(default)]
     pub stale_dest: bool,
+    /// tftpc runs with --keep-on-error
+    #[serde(default)]
+    pub keep: bool,
 }
 
 fn run_client(args: &[String], cwd: &Path, limit: Duration) -> Result<(String, String), String> {
@@ -131,6 +134,9 @@ fn run_case(dir: &Path, c: &Case) -> Result<(), (String, String)> {
         Err(StartError::Harness(e)) => return Err(("harness".into(), e)),
     };
     let mut cargs = vec![rel_arg.clone(), wire::s("-i"), wire::s(ip), wire::s("-p"), srv.port.to_string(), wire::s("-b"), c.blk.to_string(), wire::s("-w"), c.ws.to_string(), wire::s("-t"), c.timeout.to_string()];
+    if c.keep {
+        cargs.push(wire::s("--keep-on-error"));
+    }
     if c.upload {
         cargs.push(wire::s("-u"));
     } else {
@@ -291,6 +297,7 @@ pub fn strategy() -> BoxedStrategy<Case> {
                 abs_rd,
                 seed,
                 stale_dest: seed % 5 == 0,
+                keep: seed % 3 == 0,
             }
         })
         .boxed()
@@ -313,7 +320,12 @@ pub fn wrap_cases() -> Vec<Case> {
             abs_rd: true,
             seed: 15,
             stale_dest: false,
+            keep: false,
         });
+    }
+    // exactly 65536 blocks (the block count itself wraps a 16-bit counter)
+    for upload in [true, false] {
+        out.push(Case { single: false, ipv6: false, upload, style: Style::Plain, blk: 8, ws: 64, timeout: 2, len: 65535 * 8 + 5, refusal: Refusal::None, abs_rd: true, seed: 16, stale_dest: false, keep: false });
     }
     out
 }
@@ -325,7 +337,10 @@ pub fn run(ctx: &Ctx) {
     let dirs = DirPool::new(ctx, "c14");
     explore_n(ctx, "random", ctx.tier.pick(2_500, 50_000), shards(), 24, strategy, |c: &Case, o| dirs.with(|d| judge(d, c, o)));
     let wraps = wrap_cases();
-    let n = ctx.tier.pick(2, 4);
+    // quick: one download, one upload of 65538 blocks and the 65536-block upload
+    let pick: Vec<Case> = if ctx.tier == Tier::Quick { vec![wraps[0].clone(), wraps[1].clone(), wraps[4].clone()] } else { wraps.clone() };
+    let wraps = pick;
+    let n = wraps.len();
     enumerate(ctx, "beyond-65535-blocks", &wraps[..n], false, |c, o| dirs.with(|d| judge(d, c, o)));
 }
 
